@@ -13,7 +13,7 @@ from rules import c20_common as cc
 # Classes: G early-return guards dominate (ctrl depth checked) · L loop/branch bound · I type invariant established at construction
 #          K constant operand · R documented range of the statement · S allocation-size arithmetic (usize, needs > 2^63 elements)
 REASONS = [
- (r"DateRoll::add_bus_days$", r"assert:Overflow", "L", "i8 counter moves toward `days` inside `while counter >/< days`, so it stays within [-128,127]"),
+ (r"DateRoll::add_bus_days$", r"assert:Overflow", "L", "i8 counter moves toward `days` inside `while counter >/< days`, so it stays within [-128,127]", 0, 1),
  (r"DateRoll::add_bus_days$|roll_(forward|backward)(_settled)?_bus_day$|DateRoll::add_days$", r"ext:(add|sub)$", "R", "NaiveDateTime ± Days: dates stay inside chrono's range for inputs in 1970-2200 and |days| <= 128"),
  (r"DateRoll::add_days$", r"panic:Result::unwrap", "L", "u64::try_from(days) on the `days >= 0` branch (C05 R05.5)", 1),
  (r"DateRoll::lag$", r"assert:Overflow", "L", "`days + 1` only on the days<0 path, `days - 1` only on the days>0 path (C05 R05.4)", 1),
@@ -46,7 +46,7 @@ REASONS = [
  (r"mut_arrays_remaining_elements(::\{closure#\d\})?$", r"assert:Overflow\(Mul\)", "S", "n*n on usize"),
  (r"mut_arrays_remaining_elements(::\{closure#\d\})?$", r"assert:Overflow\(Add\)", "R", "i16 counter bounded by the number of currency pairs; statement range 2..12 currencies"),
  (r"mut_arrays_remaining_elements(::\{closure#\d\})?$", r"ext:", "L", "indices from combinations/argmax over 0..n on n x n arrays; Axis(0)/Axis(1) exist on 2-D arrays"),
- (r"PPSpline::<T>::bsplmatrix$", r"assert:|ext:", "G", "tau[0], tau[len-1], tau[j] inside `for i in 0..n` (n >= 1) with tau.len() == n guarded by csolve"),
+ (r"PPSpline::<T>::bsplmatrix$", r"assert:|ext:", "G", "tau[0], tau[len-1], tau[j] inside `for i in 0..n` (n >= 1) with tau.len() == n guarded by csolve", 0, 1),
  (r"bspl(d?n?)ev_single_f64$", r"assert:|ext:", "I", "knot indices i..i+k with i < n = len(t) - k (PPSpline::new); k-1 / m-1 behind the k==1 / m==0 early returns"),
  (r"impl std::ops::(Add|Sub|Mul|Div)<dual::dual::Dual2?> for dual::dual::Dual2?>::\w+$", r"ext:ArrayBase>::(add|sub|mul)|ext:impl_methods::len_of", "I", "array arithmetic on operands aligned by to_union_vars / same-Arc fast path (C03 R03.1)"),
  (r"impl num_traits::Pow<f64> for dual::dual::Dual2>::pow$|Signed for dual::dual::Dual2?>::abs$|MathFuncs for dual::dual::Dual2?>::\w+$", r"ext:ArrayBase>::(add|sub|mul)", "I", "arrays derived from one number (same shape)"),
@@ -81,7 +81,10 @@ def main():
                 if re.search(frx, fam) and re.search(krx, k):
                     if any(c < need for c in ctr):
                         print("NEED-NOT-MET", fam, k, ctr, need)
-                    out.append({"fn": fam, "kind": k, "count": len(ctr), "ctrl": [need] * len(ctr), "seen_ctrl": ctr, "class": cls, "reason": why})
+                    ent = {"fn": fam, "kind": k, "count": len(ctr), "ctrl": [need] * len(ctr), "seen_ctrl": ctr, "class": cls, "reason": why}
+                    if len(row) > 5:
+                        ent["loop"] = row[5]          # every site of the row sits inside (at least) this many loops: the review relies on it
+                    out.append(ent)
                     break
             else:
                 unmatched.append((fam, k, ctr))
